@@ -121,3 +121,9 @@ Refs.vos Refs.vok Refs.required_vos: Refs.v
 RefsFacts.vo RefsFacts.glob RefsFacts.v.beautified RefsFacts.required_vo: RefsFacts.v Refs.vo
 RefsFacts.vio: RefsFacts.v Refs.vio
 RefsFacts.vos RefsFacts.vok RefsFacts.required_vos: RefsFacts.v Refs.vos
+IterBridge.vo IterBridge.glob IterBridge.v.beautified IterBridge.required_vo: IterBridge.v Bytes.vo Segment.vo Stack.vo Collection.vo Iterator.vo
+IterBridge.vio: IterBridge.v Bytes.vio Segment.vio Stack.vio Collection.vio Iterator.vio
+IterBridge.vos IterBridge.vok IterBridge.required_vos: IterBridge.v Bytes.vos Segment.vos Stack.vos Collection.vos Iterator.vos
+IterBridgeFacts.vo IterBridgeFacts.glob IterBridgeFacts.v.beautified IterBridgeFacts.required_vo: IterBridgeFacts.v Bytes.vo BytesFacts.vo Segment.vo SegmentFacts.vo Stack.vo StackFacts.vo Collection.vo CollectionFacts.vo Iterator.vo IteratorFacts.vo IterBridge.vo
+IterBridgeFacts.vio: IterBridgeFacts.v Bytes.vio BytesFacts.vio Segment.vio SegmentFacts.vio Stack.vio StackFacts.vio Collection.vio CollectionFacts.vio Iterator.vio IteratorFacts.vio IterBridge.vio
+IterBridgeFacts.vos IterBridgeFacts.vok IterBridgeFacts.required_vos: IterBridgeFacts.v Bytes.vos BytesFacts.vos Segment.vos SegmentFacts.vos Stack.vos StackFacts.vos Collection.vos CollectionFacts.vos Iterator.vos IteratorFacts.vos IterBridge.vos
